@@ -181,6 +181,11 @@ func runEngineA(t *testing.T, p *Profile, runSeed uint64, rf *ReplayFile) *RunOu
 			}
 			if inSeq[key(*v)] {
 				f["sched"] = "any"
+				if overlappingConnects(sres) {
+					// the plan itself (a stalled write, say) keeps two CONNECTs of one client id inside their handshakes
+					// at the same time: the sequential re-run is not free of handler concurrency after all
+					f["sched"] = "concurrent-connects"
+				}
 			} else {
 				f["sched"] = "interleaving"
 			}
@@ -473,6 +478,7 @@ func ReplayMain(t *testing.T) {
 	}
 	if os.Getenv("VERIF_DUMP") != "" {
 		if res := lastResult; res != nil {
+			fmt.Println("OVERLAPPING-CONNECTS", overlappingConnects(res))
 			for _, e := range res.H.Evs {
 				b, _ := json.Marshal(e)
 				fmt.Println("EV", string(b))
